@@ -117,7 +117,7 @@ def _signame(rc):
     return "rc%d" % rc
 
 
-def _tail(path, n=3000):
+def _tail(path, n=12000):
     try:
         with open(path, "rb") as f:
             data = f.read()
